@@ -5,6 +5,7 @@ from construct.expr import this
 import struct
 
 from smpl_extract.util.fat import RequestedInvalidSector
+from smpl_extract.util.stream import SectorReadError
 
 from .data_types import FileType
 from .data_types import InvalidCharacter
@@ -41,9 +42,16 @@ class FileAdapter(Subconstruct):
                 stream, 
                 **context
             )
-        except (RequestedInvalidSector, InvalidCharacter, struct.error) as e:
+        except (
+                RequestedInvalidSector, 
+                InvalidCharacter, 
+                struct.error, 
+                SectorReadError
+        ) as e:
             # struct.error: a compiled construct read fewer bytes than a 
             # field needs (file shorter than its header)
+            # SectorReadError: the header lies beyond the end of a 
+            # truncated image
             raise ConstructError from e
 
         return file
